@@ -883,6 +883,7 @@ impl Check for C07 {
         let mut input = String::new();
         if large {
             input = if d.chance(16) {
+                case.modes = gen::benign_modes();
                 gen::gen_huge_input(d, &model)
             } else {
                 gen::gen_long_input(d, &model, 60, 400)
